@@ -1084,10 +1084,12 @@ def evaluate_listen(ctx, res, data):
     for i in bad_spec:
         c = cases[i]
         res['violations'].append({
-            'key': {'kind': 'listen-content', 'user': c['user'], 'timeout': c['timeout']},
-            'what': 'GET /api/listen%s as %s (level %d) while %s were triggered was answered the events %s: a listener must '
+            'key': {'kind': 'listen-content', 'user': c['user'], 'timeout': c['timeout'],
+                    'handover': bool(c.get('scenario'))},
+            'what': '%sGET /api/listen%s as %s (level %d) while %s were triggered was answered the events %s: a listener must '
                     'receive exactly the triggered events whose level (event_level_spec) is at most its own'
-                    % ('' if c['timeout'] is None else '?timeout=%d' % c['timeout'], c['user'], c['level'], c['triggered'],
+                    % ('[%s] ' % c['scenario'] if c.get('scenario') else '',
+                       '' if c['timeout'] is None else '?timeout=%d' % c['timeout'], c['user'], c['level'], c['triggered'],
                        c['delivered']),
             'case': dict(c, flags_on=data['flags_on'], phase='listen (real get_listen / sessions / PATCH /device, fresh process)'),
             'expected': 'the triggered events permitted at level %d' % c['level'],
@@ -1396,7 +1398,8 @@ def check(ctx, res):
         'of every user for every password 0..2, old and current); histories may contain a restart of the hub. Plus GET /listen '
         'with its real body in the same process: a listener of each level x {default timeout, ?timeout=5, 45}, an admin event '
         '(PATCH /device -> device-update) and a view-only event (full-update) triggered, one session tick; the delivered event '
-        'types are compared with the permitted ones'
+        'types are compared with the permitted ones; plus 6 hand-overs of one Session-Id (admin or normal listens and leaves, an '
+        'admin-only and a view-only event are queued for the session, a caller of each level polls with the same id)'
     )
     run(ctx, res, 'thorough' if ctx.tier == 'thorough' else 'quick')
 
